@@ -288,3 +288,39 @@ def e3(x, y=0):
 
 
 EFUNCS = [e1, e2, e3]
+
+
+# results of a few hundred KB (a compressed directory archive reads and writes them in several pieces; a file archive rewrites
+# megabytes): base64 text of random bytes - every part of it compresses "somewhat" (by a quarter) - and a repetitive tail
+_BLOBS = {}
+
+
+def _blob(x):
+    k = int(x) if isinstance(x, (int, float)) else -99
+    if k not in _BLOBS:
+        import base64
+        import random
+        _BLOBS[k] = base64.b64encode(random.Random(4000 + k).randbytes(120000)) + (b'klepto-verif %d ' % k) * 3000
+    return _BLOBS[k]
+
+
+def _bvalue(x, y):
+    return ('big', _value(x, y), _blob(x))
+
+
+def b1(x, y=0):
+    _body('b1', x, y)
+    return _bvalue(x, y)
+
+
+def b2(x, y=0):
+    _body('b2', x, y)
+    return _bvalue(x, y)
+
+
+def b3(x, y=0):
+    _body('b3', x, y)
+    return _bvalue(x, y)
+
+
+BFUNCS = [b1, b2, b3]
